@@ -277,6 +277,24 @@ func normSym(fn *Func, e ast.Expr, k, v, recv types.Object, depth int) string {
 			return rec(e.Fun, d) + "(" + strings.Join(args, ", ") + ")"
 		case *ast.BasicLit:
 			return e.Value
+		case *ast.CompositeLit:
+			var parts []string
+			for _, el := range e.Elts {
+				if kv, ok := el.(*ast.KeyValueExpr); ok {
+					parts = append(parts, exprStr(kv.Key)+": "+rec(kv.Value, d))
+				} else {
+					parts = append(parts, rec(el, d))
+				}
+			}
+			t := ""
+			if e.Type != nil {
+				t = exprStr(e.Type)
+			}
+			return t + "{" + strings.Join(parts, ", ") + "}"
+		case *ast.UnaryExpr:
+			return e.Op.String() + rec(e.X, d)
+		case *ast.IndexExpr:
+			return rec(e.X, d) + "[" + rec(e.Index, d) + "]"
 		}
 		return exprStr(e)
 	}
